@@ -74,6 +74,8 @@ def run(ctx):
                  for sz in ([0, 1, 12, 200, 255] if q else range(0, 256, 5)) for bg in range(4) for sh in range(4)]
     if q:
         vis_words = vis_words[::3]
+    # words with the bits no sub-field owns (SunVox sets them: 0x9A3202C2 is the Output's word in a shipped file)
+    vis_words += [0x1A3202C2, 0x000C01C1, 0x100000C0, 0x40, 0x80, 0x700000C4]      # (below 2^31: TLC integers are 32-bit)
     enums = {"vis_level_mode": LevelMode, "vis_orientation": Orientation, "vis_oscilloscope_mode": OscilloscopeMode}
     mod = api.m.Amplifier()
     shifts = {"vis_level_mode": (0, 5), "vis_orientation": (5, 1), "vis_oscilloscope_mode": (8, 5),
